@@ -474,7 +474,7 @@ func (p *parser) parseList(leftType, rightType tokenType) func() (*astNode, erro
 	return func() (*astNode, error) {
 		i := p.idx
 		T := p.tokens
-		if T[i].typ != leftType {
+		if T[i].typ != leftType || i+1 >= len(T) {
 			return nil, nil
 		}
 		typ := T[i+1].typ
@@ -727,6 +727,9 @@ func (p *parser) parseInfixExpression() (*astNode, error) {
 				cnt := p.getInfixOpInfo(top.t.val).childCount
 				if cnt == -1 {
 					cnt = len(outputStack) - top.l
+				}
+				if cnt < 0 || cnt > len(outputStack) {
+					return p.invalidExprErr(top.t.pos)
 				}
 
 				children := make([]*astNode, cnt)
